@@ -1,0 +1,26 @@
+//go:build verif
+
+package interp
+
+// Contracts for property C03: materialisation of an untyped constant in its target type.
+// Checked by /verif/govc. Comments only.
+
+// convertConst: the constant is converted to the target kind by go/constant's OWN conversion for
+// that kind — in particular a float32 (complex64) target takes constant.Float32Val, the exact value
+// rounded once, not a float64 rounded again (double rounding picks the wrong neighbour for values
+// next to a float32 midpoint).
+//@ -- isC(v): the value holds a go/constant value (the dynamic type test of v.Interface())
+//@ func (check typecheck) convertConst(v, t) (r, err)
+//@   props C03
+//@   ints math
+//@   opt safety = off
+//@   requires [assume] t != nil
+//@   let c: assert_go_constant_Value(rvIface(v))
+//@   let k: t.Kind()
+//@   ensures float32-rounded-once: v.IsValid() && assertok_go_constant_Value(rvIface(v)) && k == reflect.Float32 ==> err == nil && rvKind(r) == reflect.Float32 && rvFloat(r) == constF32(constToFloat(c))
+//@   ensures float64-rounded-once: v.IsValid() && assertok_go_constant_Value(rvIface(v)) && k == reflect.Float64 ==> err == nil && rvKind(r) == reflect.Float64 && rvFloat(r) == constF64(constToFloat(c))
+//@   ensures complex64-parts-rounded-once: v.IsValid() && assertok_go_constant_Value(rvIface(v)) && k == reflect.Complex64 ==> err == nil && rvKind(r) == reflect.Complex64 && rvComplex(r) == croundKind(reflect.Complex64, ccomplex(constF32(constReal(c)), constF32(constImag(c))))
+//@   ensures complex128-parts-rounded-once: v.IsValid() && assertok_go_constant_Value(rvIface(v)) && k == reflect.Complex128 ==> err == nil && rvKind(r) == reflect.Complex128 && rvComplex(r) == croundKind(reflect.Complex128, ccomplex(constF64(constReal(c)), constF64(constImag(c))))
+//@   ensures bool-string-exact: v.IsValid() && assertok_go_constant_Value(rvIface(v)) ==> (k == reflect.Bool ==> rvBool(r) == constBoolVal(c)) && (k == reflect.String ==> rvString(r) == constStringVal(c))
+//@   ensures other-kinds-rejected: v.IsValid() && assertok_go_constant_Value(rvIface(v)) && !(k == reflect.Bool || k == reflect.String || isIntKind(k) || k == reflect.Float32 || k == reflect.Float64 || k == reflect.Complex64 || k == reflect.Complex128) ==> err != nil
+//@   canary v.IsValid() && assertok_go_constant_Value(rvIface(v)) && k == reflect.Float32 ==> rvFloat(r) == roundKind(reflect.Float32, constF64(constToFloat(c)))
